@@ -582,7 +582,9 @@ func (tr *txRun) drive() {
 		case 0:
 			tr.deliver(e.ts, e.d)
 		case 1:
-			tr.mine(e.b)
+			if _, done := tr.mined[e.b]; !done {
+				tr.mine(e.b)
+			}
 		case 2:
 			tr.restart()
 		case 3:
@@ -684,6 +686,17 @@ func (tr *txRun) restart() {
 	if !ns.StopNode(10 * time.Minute) {
 		tr.c.Violate("stop-hang", "restart", "Stop did not complete within 10 simulated minutes")
 		return
+	}
+	if tr.c.Scen.Bool(1, 2) {
+		// a block found while the node is down: it is fetched during the catch-up after the
+		// restart, before the node is in sync again
+		for b := range tr.sc.blocks {
+			if _, done := tr.mined[b]; !done {
+				tr.c.Probe("block_mined_while_down")
+				tr.mine(b)
+				break
+			}
+		}
 	}
 	ns.StartNode()
 	tr.restarts = append(tr.restarts, ns.S.Now())
